@@ -1,2 +1,2 @@
 SPECIFICATION TraceSpec
-INVARIANTS LTypeOK ScriptsNeverWrite WritesOnlyAfterCode NotStuck
+INVARIANTS LTypeOK ScriptsNeverWrite
